@@ -26,6 +26,8 @@ theorem dictPut_metaPut (m : Meta) (k v : String) :
     by_cases h : e.1 = k <;> simp [h]
   · simp
 
+theorem okBind {α β : Type} (a : α) (f : α → M β) : (Except.ok a >>= f) = f a := rfl
+
 theorem forIn_cons_ok {α σ : Type} (x : α) (xs : List α) (s s' : σ) (body : α → σ → M (ForInStep σ))
     (h : body x s = .ok (.yield s')) : forIn (x :: xs) s body = forIn xs s' body := by
   rw [List.forIn_cons, h]; rfl
@@ -473,5 +475,188 @@ theorem linkname_tie (c : V → M V) (toks : List V) (wf : Nat) (n : String) (i 
   rw [visitF_linkname]
   simp [visitLinkname, ctxAcc_eq acc_linkname_ID, runAcc, leaf, isTok, tokType, mkCtx, optV, pyGetText, PT.text, tokText, PT.children]
   rfl
+
+/-! ### associations: `_post_process_multitudes` -/
+
+def ppKeys : List V := [V.str "rightMultiplicity.max", V.str "rightMultiplicity.min", V.str "leftMultiplicity.max", V.str "leftMultiplicity.min"]
+
+/-- the body of the loop of `_post_process_multitudes`, extracted from the generated definition -/
+def ppBodySpec : { body : V → V × V × V × V → M (ForInStep (V × V × V × V)) //
+    ∀ (self : Self) (A : V), _post_process_multitudes self A =
+      (forIn ppKeys (A, V.unbound, V.unbound, V.unbound) body >>= fun s => pure s.1) } :=
+  ⟨_, fun _ _ => rfl⟩
+
+def ppBody := ppBodySpec.1
+theorem pp_eq (self : Self) (A : V) : _post_process_multitudes self A =
+      (forIn ppKeys (A, V.unbound, V.unbound, V.unbound) ppBody >>= fun s => pure s.1) := ppBodySpec.2 self A
+
+local macro "split_eval" : tactic => `(tactic| (
+  unfold String.splitOn
+  rw [if_neg (by decide)]
+  repeat (rw [String.splitOnAux]; simp (config := {decide := true}) only [↓reduceIte])))
+
+theorem splitOn_rmin : "rightMultiplicity.min".splitOn "." = ["rightMultiplicity","min"] := by split_eval
+theorem splitOn_lmax : "leftMultiplicity.max".splitOn "." = ["leftMultiplicity","max"] := by split_eval
+theorem splitOn_lmin : "leftMultiplicity.min".splitOn "." = ["leftMultiplicity","min"] := by split_eval
+theorem split_rmin : pySplit (.str "rightMultiplicity.min") (.str ".") = .ok (.list [.str "rightMultiplicity", .str "min"]) := by
+  simp only [pySplit, show ".".toList = ['.'] from rfl, show String.singleton '.' = "." from rfl, splitOn_rmin]
+  rfl
+theorem split_lmax : pySplit (.str "leftMultiplicity.max") (.str ".") = .ok (.list [.str "leftMultiplicity", .str "max"]) := by
+  simp only [pySplit, show ".".toList = ['.'] from rfl, show String.singleton '.' = "." from rfl, splitOn_lmax]
+  rfl
+theorem split_lmin : pySplit (.str "leftMultiplicity.min") (.str ".") = .ok (.list [.str "leftMultiplicity", .str "min"]) := by
+  simp only [pySplit, show ".".toList = ['.'] from rfl, show String.singleton '.' = "." from rfl, splitOn_lmin]
+  rfl
+theorem split_rmax : pySplit (.str "rightMultiplicity.max") (.str ".") = .ok (.list [.str "rightMultiplicity", .str "max"]) := by
+  have : "rightMultiplicity.max".splitOn "." = ["rightMultiplicity","max"] := by
+    unfold String.splitOn
+    rw [if_neg (by decide)]
+    repeat (rw [String.splitOnAux]; simp (config := {decide := true}) only [↓reduceIte])
+  simp only [pySplit, show ".".toList = ['.'] from rfl, show String.singleton '.' = "." from rfl, this]
+  rfl
+
+/-- digit strings as Python sees them -/
+structure DigitStr (s : String) (n : Nat) : Prop where
+  ne : s ≠ ""
+  dig : s.toList.all Char.isDigit = true
+  val : s.toNat? = some n
+
+theorem DigitStr.ne_star {s n} (h : DigitStr s n) : s ≠ "*" := by
+  intro e; subst e
+  exact absurd h.dig (by decide)
+theorem DigitStr.truthy {s n} (h : DigitStr s n) : truthy (.str s) = true := by
+  simp [Visitor.truthy, h.ne]
+theorem DigitStr.isDigit {s n} (h : DigitStr s n) : pyIsDigit (.str s) = .ok true := by
+  have h1 : (s != "") = true := by simpa [bne_iff_ne] using h.ne
+  have h2 := h.dig
+  simp only [pyIsDigit, h1, h2]; rfl
+theorem DigitStr.int {s n} (h : DigitStr s n) : pyInt (.str s) = .ok (.int n) := by
+  simp [pyInt, h.val]; rfl
+
+def assocV (nm md la lf lm ra rf rm : V) : V :=
+  .dict [("name", nm), ("meta", md), ("leftAsset", la), ("leftField", lf), ("leftMultiplicity", lm), ("rightAsset", ra),
+         ("rightField", rf), ("rightMultiplicity", rm)]
+def multV (mn mx : V) : V := .dict [("min", mn), ("max", mx)]
+
+
+section
+variable (nm md la lf lm ra rf rm mn mx v : V)
+theorem assoc_get_r : pyGetItem (assocV nm md la lf lm ra rf rm) (.str "rightMultiplicity") = .ok rm := rfl
+theorem assoc_get_l : pyGetItem (assocV nm md la lf lm ra rf rm) (.str "leftMultiplicity") = .ok lm := rfl
+theorem assoc_set_r : pySetItem (assocV nm md la lf lm ra rf rm) (.str "rightMultiplicity") v = .ok (assocV nm md la lf lm ra rf v) := rfl
+theorem assoc_set_l : pySetItem (assocV nm md la lf lm ra rf rm) (.str "leftMultiplicity") v = .ok (assocV nm md la lf v ra rf rm) := rfl
+theorem mult_get_min : pyGetItem (multV mn mx) (.str "min") = .ok mn := rfl
+theorem mult_get_max : pyGetItem (multV mn mx) (.str "max") = .ok mx := rfl
+theorem mult_set_min : pySetItem (multV mn mx) (.str "min") v = .ok (multV v mx) := rfl
+theorem mult_set_max : pySetItem (multV mn mx) (.str "max") v = .ok (multV mn v) := rfl
+end
+theorem unpack2_list (a b : V) : pyUnpack2 (.list [a, b]) = .ok (a, b) := rfl
+
+
+local macro "pp_step" : tactic => `(tactic| (
+  simp only [ppBody, ppBodySpec, split_rmax, split_rmin, split_lmax, split_lmin, okBind, unpack2_list]
+  simp [*, assoc_get_r, assoc_set_r, assoc_get_l, assoc_set_l, mult_get_min, mult_get_max, mult_set_max, mult_set_min, okBind, V.eq, isNone, truthy]
+  try rfl))
+
+section
+variable (nm md la lf lm ra rf rm k sk m mn mx : V) (s : String) (n : Nat)
+
+theorem ppR_max_none_int (h : DigitStr s n) :
+    ppBody (.str "rightMultiplicity.max") (assocV nm md la lf lm ra rf (multV (.str s) .none), k, sk, m) =
+      .ok (.yield (assocV nm md la lf lm ra rf (multV (.str s) (.int n)), .str "rightMultiplicity", .str "max", .str s)) := by
+  have h1 := h.ne; have h2 := h.ne_star; have h3 := h.isDigit; have h4 := h.int
+  pp_step
+theorem ppR_max_none_star :
+    ppBody (.str "rightMultiplicity.max") (assocV nm md la lf lm ra rf (multV (.str "*") .none), k, sk, m) =
+      .ok (.yield (assocV nm md la lf lm ra rf (multV (.str "*") .none), .str "rightMultiplicity", .str "max", .none)) := by
+  pp_step
+theorem ppR_max_int (h : DigitStr s n) :
+    ppBody (.str "rightMultiplicity.max") (assocV nm md la lf lm ra rf (multV mn (.str s)), k, sk, m) =
+      .ok (.yield (assocV nm md la lf lm ra rf (multV mn (.int n)), .str "rightMultiplicity", .str "max", .str s)) := by
+  have h1 := h.ne; have h2 := h.ne_star; have h3 := h.isDigit; have h4 := h.int
+  pp_step
+theorem ppR_max_star :
+    ppBody (.str "rightMultiplicity.max") (assocV nm md la lf lm ra rf (multV mn (.str "*")), k, sk, m) =
+      .ok (.yield (assocV nm md la lf lm ra rf (multV mn .none), .str "rightMultiplicity", .str "max", .none)) := by
+  pp_step
+theorem ppR_min_int (h : DigitStr s n) :
+    ppBody (.str "rightMultiplicity.min") (assocV nm md la lf lm ra rf (multV (.str s) mx), k, sk, m) =
+      .ok (.yield (assocV nm md la lf lm ra rf (multV (.int n) mx), .str "rightMultiplicity", .str "min", .str s)) := by
+  have h1 := h.ne; have h2 := h.ne_star; have h3 := h.isDigit; have h4 := h.int
+  pp_step
+theorem ppR_min_star :
+    ppBody (.str "rightMultiplicity.min") (assocV nm md la lf lm ra rf (multV (.str "*") mx), k, sk, m) =
+      .ok (.yield (assocV nm md la lf lm ra rf (multV (.int 0) mx), .str "rightMultiplicity", .str "min", .int 0)) := by
+  pp_step
+end
+
+section
+variable (nm md la lf lm ra rf rm k sk m mn mx : V) (s : String) (n : Nat)
+
+theorem ppL_max_none_int (h : DigitStr s n) :
+    ppBody (.str "leftMultiplicity.max") (assocV nm md la lf (multV (.str s) .none) ra rf rm, k, sk, m) =
+      .ok (.yield (assocV nm md la lf (multV (.str s) (.int n)) ra rf rm, .str "leftMultiplicity", .str "max", .str s)) := by
+  have h1 := h.ne; have h2 := h.ne_star; have h3 := h.isDigit; have h4 := h.int
+  pp_step
+theorem ppL_max_none_star :
+    ppBody (.str "leftMultiplicity.max") (assocV nm md la lf (multV (.str "*") .none) ra rf rm, k, sk, m) =
+      .ok (.yield (assocV nm md la lf (multV (.str "*") .none) ra rf rm, .str "leftMultiplicity", .str "max", .none)) := by
+  pp_step
+theorem ppL_max_int (h : DigitStr s n) :
+    ppBody (.str "leftMultiplicity.max") (assocV nm md la lf (multV mn (.str s)) ra rf rm, k, sk, m) =
+      .ok (.yield (assocV nm md la lf (multV mn (.int n)) ra rf rm, .str "leftMultiplicity", .str "max", .str s)) := by
+  have h1 := h.ne; have h2 := h.ne_star; have h3 := h.isDigit; have h4 := h.int
+  pp_step
+theorem ppL_max_star :
+    ppBody (.str "leftMultiplicity.max") (assocV nm md la lf (multV mn (.str "*")) ra rf rm, k, sk, m) =
+      .ok (.yield (assocV nm md la lf (multV mn .none) ra rf rm, .str "leftMultiplicity", .str "max", .none)) := by
+  pp_step
+theorem ppL_min_int (h : DigitStr s n) :
+    ppBody (.str "leftMultiplicity.min") (assocV nm md la lf (multV (.str s) mx) ra rf rm, k, sk, m) =
+      .ok (.yield (assocV nm md la lf (multV (.int n) mx) ra rf rm, .str "leftMultiplicity", .str "min", .str s)) := by
+  have h1 := h.ne; have h2 := h.ne_star; have h3 := h.isDigit; have h4 := h.int
+  pp_step
+theorem ppL_min_star :
+    ppBody (.str "leftMultiplicity.min") (assocV nm md la lf (multV (.str "*") mx) ra rf rm, k, sk, m) =
+      .ok (.yield (assocV nm md la lf (multV (.int 0) mx) ra rf rm, .str "leftMultiplicity", .str "min", .int 0)) := by
+  pp_step
+end
+
+/-- the text of a `multatom` and what the model makes of it (`none` = `*`) -/
+def AtomStr (x : String) (a : Option Nat) : Prop := (a = none ∧ x = "*") ∨ (∃ n, a = some n ∧ DigitStr x n)
+
+def minV (a : Option Nat) : V := .int (a.getD 0 : Nat)
+def maxV (a : Option Nat) : V := rOpt (fun n => V.int (n : Nat)) a
+
+/-- the `min`/`max` dict `visitAssociation` builds for a multiplicity, and the model's bounds -/
+def MultOK (mv : V) (lo : Nat) (hi : Option Nat) : Prop :=
+  ∃ x a, AtomStr x a ∧ lo = a.getD 0 ∧
+    ((mv = multV (.str x) .none ∧ hi = a) ∨ (∃ y b, AtomStr y b ∧ mv = multV (.str x) (.str y) ∧ hi = b))
+
+theorem rMult_eq (lo : Nat) (hi : Option Nat) : rMult lo hi = multV (.int lo) (maxV hi) := rfl
+
+section
+variable (nm md la lf lm ra rf rm k sk m : V)
+
+theorem ppR (lo : Nat) (hi : Option Nat) (h : MultOK rm lo hi) :
+    ∃ k' sk' m', forIn [V.str "rightMultiplicity.max", V.str "rightMultiplicity.min"] (assocV nm md la lf lm ra rf rm, k, sk, m) ppBody =
+      (.ok (assocV nm md la lf lm ra rf (rMult lo hi), k', sk', m') : M _) := by
+  obtain ⟨x, a, ha, rfl, hm⟩ := h
+  rcases hm with ⟨rfl, rfl⟩ | ⟨y, b, hb, rfl, rfl⟩
+  · rcases ha with ⟨rfl, rfl⟩ | ⟨n, rfl, hd⟩
+    · exact ⟨_, _, _, (forIn_cons_ok _ _ _ _ _ (ppR_max_none_star ..)).trans ((forIn_cons_ok _ _ _ _ _ (ppR_min_star ..)).trans rfl)⟩
+    · exact ⟨_, _, _, (forIn_cons_ok _ _ _ _ _ (ppR_max_none_int _ _ _ _ _ _ _ _ _ _ _ _ hd)).trans
+        ((forIn_cons_ok _ _ _ _ _ (ppR_min_int _ _ _ _ _ _ _ _ _ _ _ _ _ hd)).trans rfl)⟩
+  · rcases hb with ⟨rfl, rfl⟩ | ⟨n', rfl, hd'⟩
+    · rcases ha with ⟨rfl, rfl⟩ | ⟨n, rfl, hd⟩
+      · exact ⟨_, _, _, (forIn_cons_ok _ _ _ _ _ (ppR_max_star ..)).trans ((forIn_cons_ok _ _ _ _ _ (ppR_min_star ..)).trans rfl)⟩
+      · exact ⟨_, _, _, (forIn_cons_ok _ _ _ _ _ (ppR_max_star ..)).trans
+          ((forIn_cons_ok _ _ _ _ _ (ppR_min_int _ _ _ _ _ _ _ _ _ _ _ _ _ hd)).trans rfl)⟩
+    · rcases ha with ⟨rfl, rfl⟩ | ⟨n, rfl, hd⟩
+      · exact ⟨_, _, _, (forIn_cons_ok _ _ _ _ _ (ppR_max_int _ _ _ _ _ _ _ _ _ _ _ _ _ hd')).trans
+          ((forIn_cons_ok _ _ _ _ _ (ppR_min_star ..)).trans rfl)⟩
+      · exact ⟨_, _, _, (forIn_cons_ok _ _ _ _ _ (ppR_max_int _ _ _ _ _ _ _ _ _ _ _ _ _ hd')).trans
+          ((forIn_cons_ok _ _ _ _ _ (ppR_min_int _ _ _ _ _ _ _ _ _ _ _ _ _ hd)).trans rfl)⟩
+end
 
 end MalVerif.Py.Visitor
